@@ -10,7 +10,9 @@ PID = 'C19'
 RULE = ('Hypothesis: sequences of 1..12 typed values (u/i 8/16/32/64 over full range with '
         'extremes, f16/f32/f64 given as IEEE bit patterns incl. subnormal/inf/NaN/-0, bit groups '
         '1..16, byte strings 1..9 bytes, text strings incl. non-ASCII (stored as UTF-8)) x 4 byte/word orders x transport as raw bytes and as registers; '
-        'oracle = exact round trip + independent layout function. Non-trivial: some 32/64-bit item '
+        'oracle = exact round trip + independent layout function; histories also look at the builder between additions '
+        '(build/to_registers/to_string must not change what is built later), re-use the builder after reset(), step over '
+        'items with skip_bytes and decode a second time after the decoder\'s reset(). Non-trivial: some 32/64-bit item '
         'whose expected image differs from plain network order (order actually mattered) or odd '
         'total length; distinct by SHA-1 of the case.')
 ASSUMPTIONS = ['struct.pack of a float at its own width is the IEEE-754 reference encoding',
@@ -55,6 +57,11 @@ def strategy(tier):
         'items': st.lists(_item(), min_size=1, max_size=12),
         # after which items the caller looks at the builder (build / to_registers / to_string) before adding more
         'peek': st.lists(st.integers(0, 11), min_size=0, max_size=3),
+        # builder re-used: everything added before item k is thrown away with reset()
+        'reset_at': st.one_of(st.none(), st.none(), st.integers(1, 6)),
+        # decoder side: items stepped over with skip_bytes instead of being decoded; a second pass after reset()
+        'skip': st.lists(st.sampled_from([False, False, False, True]), min_size=0, max_size=12),
+        'second_pass': st.booleans(),
     })
 
 
@@ -127,7 +134,14 @@ def run_case(case):
     try:
         b = BinaryPayloadBuilder(byteorder=bo, wordorder=wo)
         peek = set(case.get('peek') or [])
+        reset_at = case.get('reset_at')
+        if reset_at is not None and reset_at < len(items):
+            labels.append('builder-reset')
+        else:
+            reset_at = None
         for n_, (kind, v) in enumerate(items):
+            if reset_at is not None and n_ == reset_at:
+                b.reset()
             if n_ in peek and n_ > 0:
                 labels.append('peek')
                 b.build()
@@ -151,6 +165,8 @@ def run_case(case):
     except Exception as e:
         return Outcome([Disc('builder-raises', '%s: %s' % (type(e).__name__, e))], labels, True)
 
+    if reset_at is not None:
+        items = items[reset_at:]
     expected = b''.join(_expected_image(it, bo, wo) for it in items)
     if raw != expected:
         discs.append(Disc('layout-bytes', 'to_string()=%s expected %s' % (raw.hex(), expected.hex())))
@@ -166,30 +182,41 @@ def run_case(case):
             d = BinaryPayloadDecoder(raw, byteorder=bo, wordorder=wo)
         else:
             d = BinaryPayloadDecoder.fromRegisters(list(regs), byteorder=bo, wordorder=wo)
-        for idx, (kind, v) in enumerate(items):
-            if kind in INTS:
-                size, signed = INTS[kind]
-                got = getattr(d, 'decode_%dbit_%s' % (size * 8, 'int' if signed else 'uint'))()
-                ok = (got == v)
-            elif kind in FLOATS:
-                want = _fval(kind, v)
-                got = getattr(d, 'decode_%dbit_float' % (FLOATS[kind][0] * 8))()
-                if math.isnan(want):
-                    ok = isinstance(got, float) and math.isnan(got)
+        skip = list(case.get('skip') or [])
+        for pass_ in range(2 if case.get('second_pass') else 1):
+            if pass_:
+                labels.append('second-pass')
+                d.reset()
+            for idx, (kind, v) in enumerate(items):
+                if idx < len(skip) and skip[idx] and pass_ == 0:
+                    labels.append('skipped-item')
+                    d.skip_bytes(len(_expected_image([kind, v], bo, wo)))
+                    continue
+                if kind in INTS:
+                    size, signed = INTS[kind]
+                    got = getattr(d, 'decode_%dbit_%s' % (size * 8, 'int' if signed else 'uint'))()
+                    ok = (got == v)
+                elif kind in FLOATS:
+                    want = _fval(kind, v)
+                    got = getattr(d, 'decode_%dbit_float' % (FLOATS[kind][0] * 8))()
+                    if math.isnan(want):
+                        ok = isinstance(got, float) and math.isnan(got)
+                    else:
+                        ok = isinstance(got, float) and struct.pack('>d', got) == struct.pack('>d', want)
+                elif kind == 'bits':
+                    got = []
+                    for _ in range((len(v) + 7) // 8):
+                        got.extend(d.decode_bits())
+                    want = list(v) + [False] * (-len(v) % 8)
+                    ok = (got == want)
                 else:
-                    ok = isinstance(got, float) and struct.pack('>d', got) == struct.pack('>d', want)
-            elif kind == 'bits':
-                got = []
-                for _ in range((len(v) + 7) // 8):
-                    got.extend(d.decode_bits())
-                want = list(v) + [False] * (-len(v) % 8)
-                ok = (got == want)
-            else:
-                want = bytes.fromhex(v) if kind == 'str' else v.encode()
-                got = d.decode_string(len(want))
-                ok = (got == want)
-            if not ok:
-                discs.append(Disc('roundtrip', 'item %d %s: put %r got %r' % (idx, kind, v, got)))
+                    want = bytes.fromhex(v) if kind == 'str' else v.encode()
+                    got = d.decode_string(len(want))
+                    ok = (got == want)
+                if not ok:
+                    discs.append(Disc('roundtrip', 'pass %d item %d %s: put %r got %r' % (pass_, idx, kind, v, got)))
+                    break
+            if discs:
                 break
     except Exception as e:
         discs.append(Disc('decoder-raises', '%s: %s' % (type(e).__name__, e)))
